@@ -13,6 +13,12 @@ import socket as _socket
 from lib import vfmt
 
 PROPERTY = 'C14'
+SOURCE_IMPORTS = ['ScalesModel.Model.ThriftCodec']
+SOURCE_CONSTANTS = {
+    'Scales.ThriftCodec.mtCall': ('from thrift.Thrift import TMessageType as T', 'T.CALL'),
+    'Scales.ThriftCodec.mtReply': ('from thrift.Thrift import TMessageType as T', 'T.REPLY'),
+    'Scales.ThriftCodec.mtException': ('from thrift.Thrift import TMessageType as T', 'T.EXCEPTION'),
+}
 COMPONENT = 'thriftcodec'
 QUICK = dict(gen=3000)
 THOROUGH = dict(gen=100000)
